@@ -42,7 +42,7 @@ def score_strings(rng, n):
 
 def extra_corr(rng, tier, driver, res):
     """Score.parse vs Pedal.Resolver.parseScore on a stream of raw strings."""
-    strs = score_strings(rng, 300 if tier == "quick" else 5000)
+    strs = score_strings(rng, 3000 if tier == "quick" else 8000)
     strs = [s for s in strs if all(ord(c) < 128 for c in s)]   # str.isdigit vs ASCII digits: ASCII only
     answers = driver.ask(["score " + enc_str(s) for s in strs])
     for s, a in zip(strs, answers):
